@@ -251,7 +251,10 @@ fn prepare(w: &mut World, state: u8) {
             w.settle_check();
             w.take_stream(i);
             let sid = w.sub_id_of(i).unwrap_or(1);
-            w.sim.streams[0].held = true;
+            // (if the connection could not even be established there is no stream: the model has said so already)
+            if let Some(s0) = w.sim.streams.get_mut(0) {
+                s0.held = true;
+            }
             w.in_publish(1, 5, false, &[sid], false);
             w.start(1, Kind::Sub);
         }
